@@ -1066,6 +1066,14 @@ htp_status_t htp_tx_state_request_complete(htp_tx_t *tx) {
         connp->in_state = htp_connp_REQ_IDLE;
     }
 
+    // If the response side completed this transaction but yielded to us
+    // (HTP_DATA_OTHER) before detaching from it, detach it now so that
+    // the transaction is finalized only once.
+    if ((connp->out_tx == tx) && (tx->response_progress == HTP_RESPONSE_COMPLETE)) {
+        connp->out_tx = NULL;
+        connp->out_state = htp_connp_RES_IDLE;
+    }
+
     // Check if the entire transaction is complete. This call may
     // destroy the transaction, if auto-destroy is enabled.
     htp_tx_finalize(tx);
